@@ -171,7 +171,7 @@ RECURSIVE DecFrom(_, _, _)
 DecFrom(s, i, acc) ==
   IF i > Len(s) THEN [ok |-> TRUE, big |-> FALSE, v |-> acc]
   ELSE IF ~IsDigit(s[i]) THEN [ok |-> FALSE, big |-> FALSE, v |-> 0]
-  ELSE IF acc > (MaxInt - 9) \div 10 THEN [ok |-> TRUE, big |-> TRUE, v |-> 0]
+  ELSE IF acc > (MaxInt - (s[i] - 48)) \div 10 THEN [ok |-> TRUE, big |-> TRUE, v |-> 0]
   ELSE DecFrom(s, i + 1, acc * 10 + (s[i] - 48))
 DecOf(s) == IF s = <<>> THEN [ok |-> FALSE, big |-> FALSE, v |-> 0] ELSE DecFrom(s, 1, 0)
 
@@ -193,7 +193,7 @@ TTLFrom(s, i, total, cur, nd) ==      \* nd: digits in the pending number
     ELSE [ok |-> TRUE, big |-> FALSE, v |-> total + cur]
   ELSE LET c == s[i] IN
     IF IsDigit(c) THEN
-      IF cur > (MaxInt - 9) \div 10 THEN [ok |-> TRUE, big |-> TRUE, v |-> 0]
+      IF cur > (MaxInt - (c - 48)) \div 10 THEN [ok |-> TRUE, big |-> TRUE, v |-> 0]
       ELSE TTLFrom(s, i + 1, total, cur * 10 + (c - 48), nd + 1)
     ELSE IF UnitOf(c) # 0 /\ nd > 0 THEN
       IF cur > MaxInt \div UnitOf(c) THEN [ok |-> TRUE, big |-> TRUE, v |-> 0]
